@@ -427,6 +427,10 @@ func (f *fileDecorator) attachToDecoration(frags []fragment, decorations map[ast
 func (f *fileDecorator) findDecoration(stopAtNewline, stopAtEmptyLine bool, from int, direction int, onlyClause bool) (swept []fragment, dec *decorationFragment, found bool) {
 	var frags []fragment
 	for i := from; i < len(f.fragments) && i >= 0; i += direction {
+		if !f.sameFile(f.fragments[from], f.fragments[i]) {
+			// never attach to a decoration point in another file of the package
+			return
+		}
 		switch current := f.fragments[i].(type) {
 		case *decorationFragment:
 			if onlyClause {
@@ -483,6 +487,9 @@ func (f *fileDecorator) findNode(from int, direction int) (node ast.Node, dec *d
 	}
 
 	for i := from; i < len(f.fragments) && i >= 0; i += direction {
+		if !f.sameFile(f.fragments[from], f.fragments[i]) {
+			return
+		}
 		switch frag := f.fragments[i].(type) {
 		case *decorationFragment:
 			if frag.Name == name {
@@ -508,6 +515,9 @@ func (f *fileDecorator) findIndentedComments(from int, indents [2]int) (frags [2
 	var stage int
 	var pastNewline bool // while this is false, we're on the same line that the stmt ended, so we accept all comments regardless of the indent (e.g. empty clauses) - see "hanging-indent-same-line" test case.
 	for i := from; i < len(f.fragments); i++ {
+		if from > 0 && !f.sameFile(f.fragments[from-1], f.fragments[i]) {
+			return
+		}
 		switch current := f.fragments[i].(type) {
 		case *decorationFragment:
 			return frags, current
@@ -539,6 +549,16 @@ func (f *fileDecorator) findIndentedComments(from int, indents [2]int) (frags [2
 		}
 	}
 	return
+}
+
+// sameFile reports whether two fragments lie in the same file of the file set. When a package is
+// decorated the fragments of all its files are in one list; the attachment searches stop at the
+// boundary between two files.
+func (f *fileDecorator) sameFile(a, b fragment) bool {
+	if f.Fset == nil {
+		return true
+	}
+	return f.Fset.File(a.Position()) == f.Fset.File(b.Position())
 }
 
 type fragment interface {
